@@ -18,6 +18,7 @@ const edPkg = "common/ed25519"
 func c16(c *eng.Ctx, r *eng.Report) {
 	r.Explain = "Structural necessary conditions of VRF completeness under header transport and of a deterministic quality number, decided on the SSA of common/ed25519/vrf.go, consensus/vrf and consensus/logical/vrf_with_stake.go: " +
 		"R16.1 on the verification and qualification paths a proof is left-padded to 80 bytes before it is decoded or its lottery output is read, and both padding helpers right-align the shortened proof (`copy(buf[80-len(pi):], pi)`) and only skip proofs that are already full length; " +
+		"R16.11 the quality number is scaled by the threshold the proof was accepted under: in validateProve the ratio handed to calQn is the very value the VRF ratio was compared against (qn = floor(v / (threshold/MaxQN)) + 1 stays within 1..MaxQN only because v < threshold was just established for the same threshold); " +
 		"R16.10 nothing between the block header and the padding helper judges the proof by its length: vrf.VRFVerify, vrf.VRFProof2Hash and logical.verifyBlockVRF have no branch on len() of the prove (a proof that lost leading zero bytes in transport is shorter than 80 bytes until ECVRFVerify pads it); " +
 		"R16.2/R16.5 neither proof generation nor verification consults randomness, the clock, a cache or any package-level mutable state, so proving is deterministic and the verdict is a function of (key, proof, message) — and of the header's height, never of the node's own chain position (no common.GetBlockHeight()/IsProposalNNN() in the cone); " +
 		"R16.3 ECVRFVerify returns true only as the comparison of the recomputed challenge with the proof's c, after the proof decoded without error, and the message and key passed to hashToCurve are the function's own arguments; " +
@@ -30,6 +31,7 @@ func c16(c *eng.Ctx, r *eng.Report) {
 	c16Padding(c, r)
 	c16Purity(c, r)
 	c16NoLengthGate(c, r)
+	c16QnSameThreshold(c, r)
 	c16Verify(c, r)
 	c16Qn(c, r)
 	c16Verbatim(c, r)
@@ -572,4 +574,30 @@ func c16NoLengthGate(c *eng.Ctx, r *eng.Report) {
 		}
 		r.Check(bad == "", rule, "no-length-gate:"+e[1], c.Pos(fn.Pos()), "no branch on the length of the prove", e[1]+" branches on "+bad+" before the proof reaches the padding in ECVRFVerify: the header stores the proof as a big integer, so one honest proof in 256 arrives with 79 bytes (its leading zero byte gone) and is rejected although it would verify after padding")
 	}
+}
+
+// c16QnSameThreshold: see R16.11.
+func c16QnSameThreshold(c *eng.Ctx, r *eng.Report) {
+	const rule = "R16.11"
+	r.Min(rule, 1)
+	fn := c.Func("consensus/logical", "validateProve")
+	if !r.Anchor(fn != nil, rule, "logical.validateProve") {
+		return
+	}
+	var cmp, qn *ssa.CallCommon
+	var qnPos token.Pos
+	for _, s := range eng.Sites(fn) {
+		switch {
+		case s.Name() == "(*math/big.Rat).Cmp":
+			cmp = s.Common()
+		case strings.HasSuffix(s.Name(), "logical.calQn"):
+			qn = s.Common()
+			qnPos = s.Pos()
+		}
+	}
+	if !r.Anchor(cmp != nil && qn != nil && len(cmp.Args) == 2 && len(qn.Args) == 2, rule, "validateProve: one Rat.Cmp and one calQn call") {
+		return
+	}
+	same := eng.ResolveLocal(cmp.Args[0]) == eng.ResolveLocal(qn.Args[0]) && eng.ResolveLocal(cmp.Args[1]) == eng.ResolveLocal(qn.Args[1])
+	r.Check(same, rule, "qn:same-threshold", c.Pos(qnPos), "calQn receives the two values the acceptance comparison was made on", "validateProve compares "+eng.Desc(cmp.Args[0])+" against "+eng.Desc(cmp.Args[1])+" but scales the quality number by calQn("+eng.Desc(qn.Args[0])+", "+eng.Desc(qn.Args[1])+"): a proof accepted under the one threshold is divided by a step of the other, so the quality number of an accepted proof leaves 1..MaxQN (past the Proposal025 difficulty switch: values in the thousands)")
 }
